@@ -125,8 +125,8 @@ def run_case(case, ctx):
     r = ctx.rng("C06run", case.get("salt", 0), case["op"])
     evs = []
     if case["op"] == "add_subcircuit":
-        p = build(case["p"])
-        sc = build(case["sc"])
+        p = build(case["p"], case.get("ord"))
+        sc = build(case["sc"], case.get("ord"))
         names = ["u0", "u1"] if case["twice"] else ["u0"]
         for name in names:
             pp = proj(p)
@@ -145,7 +145,7 @@ def run_case(case, ctx):
             p.relabel({w: "%s_%s" % (name, w) for w in extra if w in p})
         return evs
     if case["op"] == "fill_blackbox":
-        p = build(case["p"])
+        p = build(case["p"], case.get("ord"))
         scp = case["sc"]
         sc = build(scp)
         ins = sorted(sc.inputs())
@@ -173,7 +173,7 @@ def run_case(case, ctx):
         except Exception as e:
             exc = type(e).__name__
         return {"kind": "fill_blackbox", "p": pre, "sc": scp, "name": "inst", "r": proj(p), "exc": exc, "nontrivial": True}
-    c = build(case["c"])
+    c = build(case["c"], case.get("ord"))
     ign = case["ignore"]
     exc, res = "", None
     try:
